@@ -579,6 +579,14 @@ def rule_size_reasked(ctx: Ctx) -> RuleResult:
     return rr
 
 
+def _nameprefix(ctx: Ctx) -> RuleResult:
+    """process_input() decides by is_mouse_event() whether an event goes to mouse_event() or keypress(): every mouse
+    report - also one with modifier words in front - has to be recognised (shared with C05.14)."""
+    from ..rules import nameprefix
+
+    return nameprefix.run_nameprefix(ctx.p, "C12.13", ("urwid.display", "urwid.util", "urwid.event_loop.main_loop"), floor=3)
+
+
 def rule_snapshot_per_session(ctx: Ctx) -> RuleResult:
     """'original tty settings restored' for *every* session: Screen._start() snapshots the tty signal keys only when
     the application has not set them itself (`if not self.<flag>:`), and the flag is raised by every
@@ -627,6 +635,7 @@ def run(ctx: Ctx):
         rule_popup_fresh(ctx),
         rule_size_reasked(ctx),
         rule_snapshot_per_session(ctx),
+        _nameprefix(ctx),
         _redraw_armed(ctx),
     ]
 
@@ -636,6 +645,7 @@ from ..mutants import Mut  # noqa: E402
 _M = "urwid/event_loop/main_loop.py"
 _P = "urwid/display/_posix_raw_display.py"
 MUTANTS = [
+    Mut("mouse-event-test-as-prefix", "urwid/util.py", "is_mouse_event", '"mouse" in ev[0]', 'isinstance(ev[0], str) and ev[0].startswith("mouse ")', "SIB|util.is_mouse_event|'mouse' tested as a prefix"),
     Mut("signal-keys-snapshot-once", _P, "urwid.display._posix_raw_display.Screen._stop", "            self._signal_keys_set = False\n", "", "PAIR|display._posix_raw_display.Screen._stop|restore leaves _signal_keys_set raised"),
     Mut("start-keeps-cached-screen-size", _M, "MainLoop.start", "        self.screen_size = None\n", "", "PASS|event_loop.main_loop.MainLoop.start|start() keeps the cached screen_size"),
     Mut("popup-keypress-stale-overlay", "urwid/widget/popup.py", "PopUpTarget.keypress", "        self._update_overlay(size, True)\n", "", "MEMO|widget.popup.PopUpTarget.keypress|keypress: _current_widget used without refreshing the overlay"),
